@@ -42,6 +42,7 @@ type kStruct struct {
 	M      map[string]string
 }
 
+func (k kStruct) Touch()        {}
 func (k kStruct) Hello() string { return "hello " + k.Name }
 func (k *kStruct) Shout() string {
 	if k == nil {
@@ -198,6 +199,10 @@ func kindValue(kind string) (interface{}, bool) {
 		return (*kStruct)(nil), true
 	case "func0":
 		return func() string { return "f0" }, true
+	case "func_void":
+		return func() {}, true
+	case "func_void_variadic":
+		return func(xs ...interface{}) {}, true
 	case "func_str":
 		return func(s string) string { return "f(" + s + ")" }, true
 	case "func_err":
